@@ -181,6 +181,7 @@ PROPS = {
                   {"name": "TestC12RoundTrip", "quick": 5000, "thorough": 50000, "shards": 4},
                   {"name": "TestC12Evaluate", "quick": 50, "shards_quick": 3, "thorough": 300, "shards": 12},
                   {"name": "TestC12SearchAfterBuild", "quick": 6, "shards_quick": 3, "thorough": 60, "shards": 6},
+                  {"name": "TestC12IndexFailure", "quick": 200, "thorough": 3000, "shards": 4},
                   {"name": "FuzzQueryParse", "fuzztime": 60}],
     },
     "C11": {
@@ -199,7 +200,8 @@ PROPS = {
         "assumptions": ["compared at points where nothing is staged but uncommitted", "bleve is compared with bleve (same analyser)",
                         "handles are never kept across an eviction (see C18 known finding)"],
         "tests": [{"name": "TestC11CacheVsRebuild", "quick": 24, "shards_quick": 4, "thorough": 150, "shards": 16},
-                  {"name": "TestC11ConcurrentBuild", "quick": None, "shards_quick": 4, "thorough": None, "shards": 8}],
+                  {"name": "TestC11ConcurrentBuild", "quick": None, "shards_quick": 4, "thorough": None, "shards": 8},
+                  {"name": "TestC11LargePull", "quick": 6, "shards_quick": 3, "thorough": 50, "shards": 6}],
     },
     "C08": {
         "level": "exploration",
@@ -315,7 +317,8 @@ PROPS = {
                 "or non-ASCII / edge-whitespace text. Distinct: op-kind sequence with chunking + author pattern.",
         "assumptions": ["valid UTF-8 only; operations refused by Validate are not part of the expected history"],
         "tests": [{"name": "TestC04RoundTrip", "quick": 150, "shards_quick": 2, "thorough": 500, "shards": 16},
-                  {"name": "TestC04ForeignForm", "quick": 400, "thorough": 3000, "shards": 2}],
+                  {"name": "TestC04ForeignForm", "quick": 400, "thorough": 3000, "shards": 2},
+                  {"name": "TestC04CommitRetry", "quick": 300, "shards_quick": 2, "thorough": 3000, "shards": 8}],
     },
     "C01": {
         "level": "exploration",
@@ -353,7 +356,8 @@ PROPS = {
         "assumptions": ["single-threaded harness: the bare remote equals the just-fetched state"],
         "tests": [{"name": "TestC02Pull", "quick": 60, "shards_quick": 4, "thorough": 400, "shards": 16},
                   {"name": "TestC02CachePull", "quick": 40, "shards_quick": 3, "thorough": 300, "shards": 8},
-                  {"name": "TestC02CLIPull", "quick": 8, "shards_quick": 3, "thorough": 60, "shards": 8}],
+                  {"name": "TestC02CLIPull", "quick": 8, "shards_quick": 3, "thorough": 60, "shards": 8},
+                  {"name": "TestC02InterruptedPull", "quick": 40, "shards_quick": 2, "thorough": 400, "shards": 8}],
     },
     "C03": {
         "level": "exploration",
